@@ -308,7 +308,7 @@ def rule_conv(ctx):
 
 # 'subject only to the switch rule', addressing of the right device, and number text valid for any format is parsed
 # ... and the client's own view follows the resulting update (C15.MIRROR)
-IMPORTS = [('C02', 'C02.OWN'), ('C09', 'C09.STEP'), ('C04', 'C04.DEV'), ('C10', 'C10.PARSE'), ('C02', 'C02.DECODE'), ('C02', 'C02.LOOP'), ('C02', 'C02.CONSUME'), ('C15', 'C15.MIRROR'), ('C10', 'C10.SIGN')]
+IMPORTS = [('C05', 'C05.KEY'), ('C02', 'C02.OWN'), ('C09', 'C09.STEP'), ('C04', 'C04.DEV'), ('C10', 'C10.PARSE'), ('C02', 'C02.DECODE'), ('C02', 'C02.LOOP'), ('C02', 'C02.CONSUME'), ('C15', 'C15.MIRROR'), ('C10', 'C10.SIGN')]
 
 RULES = [
     ("C06.KEY", rule_key, "dispatch: exactly the named elements of the addressed, kind-matching property; nothing else"),
